@@ -41,6 +41,12 @@ pub struct Case {
     /// for the plain arm: a file that the argument could name exists
     pub plain_file: Option<String>,
     pub chunk: Chunking,
+    /// compile through the real `FsLoader` on a materialised directory instead of the SimLoader
+    #[serde(default)]
+    pub real_fs: bool,
+    /// real names of the directories `w`, `lp1`, `lp2` when `real_fs` (empty = unchanged)
+    #[serde(default)]
+    pub dirnames: Vec<String>,
 }
 
 fn cand_names(kind: LoadKind, url: &str) -> Vec<String> {
@@ -231,15 +237,54 @@ pub fn judge(case: &Case, stats: &mut Stats) -> (Judgement, Option<Outcome>) {
             budget: 2000,
         })
     };
-    let o = run(Chunking::NONE);
-    stats.compiled(&o);
+    let o = if case.real_fs {
+        let names = case.dirnames.clone();
+        let rename = move |p: &str| -> String {
+            let (top, rest) = p.split_once('/').map_or((p, None), |(a, b)| (a, Some(b)));
+            let k = match top {
+                "w" => 0,
+                "lp1" => 1,
+                "lp2" => 2,
+                _ => usize::MAX,
+            };
+            let top = names.get(k).map_or(top, String::as_str);
+            match rest {
+                Some(r) => format!("{top}/{r}"),
+                None => top.to_string(),
+            }
+        };
+        let res = crate::xval::real_result_renamed(
+            &store.fs,
+            &case.bases(),
+            "w/root.scss",
+            "root.scss",
+            Fmt::default(),
+            &format!("c04real-{}", vcommon::fnv64(serde_json::to_string(case).unwrap().as_bytes())),
+            &rename,
+        );
+        stats.inc("probe:judged_through_real_fsloader");
+        Outcome {
+            res,
+            history: vec![],
+            delivered: vec![],
+            budget_hit: false,
+            fired: vcommon::Counters::default(),
+            finds: 0,
+            hits: 0,
+        }
+    } else {
+        let o = run(Chunking::NONE);
+        stats.compiled(&o);
+        o
+    };
     let obs = observe(&o.res);
     let base_sig = format!(
-        "kind={} subdir={} url={} nlp={}",
+        "kind={} subdir={} url={} nlp={} loader={}",
         case.kind.letter(),
         u8::from(case.subdir),
         case.url,
-        case.nlp
+        case.nlp,
+        if case.real_fs { "fs" } else { "sim" }
     );
     if let Res::Panic(m) = &o.res {
         return (Judgement::fail("no_panic", base_sig, format!("panic: {m}")), Some(o));
@@ -305,7 +350,7 @@ pub fn judge(case: &Case, stats: &mut Stats) -> (Judgement, Option<Outcome>) {
         } else {
             stats.inc("probe:nothing_found_is_error");
         }
-        if case.chunk.is_benign_noise() {
+        if case.chunk.is_benign_noise() && !case.real_fs {
             let o2 = run(case.chunk);
             stats.compiled(&o2);
             if o2.res != o.res {
@@ -429,6 +474,8 @@ pub fn case_for(index: u64, tier: Tier, rng: &mut Rng) -> (Case, &'static str) {
                 plain: None,
                 plain_file: None,
                 chunk: Chunking::NONE,
+                real_fs: false,
+                dirnames: vec![],
             },
             "single_location_exhaustive",
         );
@@ -449,6 +496,8 @@ pub fn case_for(index: u64, tier: Tier, rng: &mut Rng) -> (Case, &'static str) {
                 plain: Some(arg.to_string()),
                 plain_file: if exists { file.map(|f| format!("{dir}/{f}")) } else { None },
                 chunk: Chunking::NONE,
+                real_fs: false,
+                dirnames: vec![],
             },
             "plain_css_arm",
         );
@@ -470,6 +519,8 @@ pub fn case_for(index: u64, tier: Tier, rng: &mut Rng) -> (Case, &'static str) {
                 plain: None,
                 plain_file: None,
                 chunk: Chunking::NONE,
+                real_fs: false,
+                dirnames: vec![],
             },
             "two_locations_use_exhaustive",
         );
@@ -515,6 +566,8 @@ pub fn case_for(index: u64, tier: Tier, rng: &mut Rng) -> (Case, &'static str) {
             plain: None,
             plain_file: None,
             chunk: if rng.chance(1, 5) { Chunking::draw(rng) } else { Chunking::NONE },
+            real_fs: false,
+            dirnames: vec![],
         },
         "several_locations_sampled",
     )
@@ -551,6 +604,22 @@ impl Prop for C04 {
                 }
             }
         }
+        let mut extra_violations = vec![];
+        if index % 6 == 1 && case.plain.is_none() {
+            // the same layout through the real FsLoader, with directory names whose
+            // sort order differs from the search order
+            let mut c2 = case.clone();
+            c2.real_fs = true;
+            c2.chunk = Chunking::NONE;
+            c2.dirnames = match rng.below(4) {
+                0 => vec!["w".into(), "lp1".into(), "lp2".into()],
+                1 => vec!["w".into(), "zlp".into(), "alp".into()],
+                2 => vec!["m".into(), "zz".into(), "aa".into()],
+                _ => vec!["proj".into(), "inc".into(), "vendor".into()],
+            };
+            let (j2, o2) = judge(&c2, stats);
+            extra_violations = to_violations(&c2, j2, o2.as_ref());
+        }
         if let Some(o) = &o {
             // distinct = distinct (layout, load statement) configurations with their observed result
             let mut d = vcommon::Digest::new();
@@ -571,7 +640,9 @@ impl Prop for C04 {
                 });
             }
         }
-        to_violations(&case, j, o.as_ref())
+        let mut v = to_violations(&case, j, o.as_ref());
+        v.extend(extra_violations);
+        v
     }
     fn replay(&self, case: &Json, stats: &mut Stats) -> Vec<Violation> {
         let Ok(case) = serde_json::from_value::<Case>(case.clone()) else {
@@ -614,7 +685,7 @@ impl Prop for C04 {
         crate::core::world_a_extra(stats)
     }
     fn rule(&self) -> String {
-        format!("Runs 0..{SINGLE} enumerate exhaustively every subset of the candidate files in the importer's directory (2^6 for @use, 2^6 for @forward, 2^10 for @import) x importer at the root / in a sub-directory x url `u` / `s/u`; the next {PLAIN} runs enumerate the plain-CSS @import forms with and without a matching file; (thorough only) the next {TWO_LOC_USE} enumerate every subset pair over importer directory x first load path for @use; the remaining runs sample subsets over importer directory, root directory, up to two load paths and decoy directories from the seed. Each case is compiled by the real library through SimLoader; the file whose marker appears must be the winner under at least one admissible reading of the rule (location-major / candidate-major, pairwise / grouped import-only order, root directory counted as load path or not). Non-trivial = every run (each has at least one lookup); distinct = distinct (layout, load statement, result) configurations. Every 40th run is also materialised on the real file system and compiled through the real FsLoader; the result must equal the simulated one (probe stub_validated_against_real).")
+        format!("Runs 0..{SINGLE} enumerate exhaustively every subset of the candidate files in the importer's directory (2^6 for @use, 2^6 for @forward, 2^10 for @import) x importer at the root / in a sub-directory x url `u` / `s/u`; the next {PLAIN} runs enumerate the plain-CSS @import forms with and without a matching file; (thorough only) the next {TWO_LOC_USE} enumerate every subset pair over importer directory x first load path for @use; the remaining runs sample subsets over importer directory, root directory, up to two load paths and decoy directories from the seed. Each case is compiled by the real library through SimLoader; the file whose marker appears must be the winner under at least one admissible reading of the rule (location-major / candidate-major, pairwise / grouped import-only order, root directory counted as load path or not). Non-trivial = every run (each has at least one lookup); distinct = distinct (layout, load statement, result) configurations. Every 6th layout is also materialised on the real file system under directory names whose sort order differs from the search order and compiled through the real FsLoader, and judged by the same oracle (loader=fs); every 40th run the real and the simulated result must also be equal (probe stub_validated_against_real).")
     }
     fn assumptions(&self) -> Vec<String> {
         vec![
@@ -634,6 +705,7 @@ impl Prop for C04 {
         }
         for p in [
             "probe:stub_validated_against_real",
+            "probe:judged_through_real_fsloader",
             "probe:import_only_file_won",
             "probe:css_file_won",
             "probe:index_file_won",
